@@ -27,7 +27,7 @@ type fcase struct {
 	Bal    string `json:"balancer"`
 }
 
-var modes = []string{"zero-healthy", "unknown-model", "all-refuse", "all-reset", "all-eof", "all-garbage", "backend-400", "backend-404", "backend-429", "backend-500", "backend-503", "backend-500-nonjson", "malformed-200-json", "empty-200"}
+var modes = []string{"zero-healthy", "unknown-model", "all-refuse", "all-reset", "all-eof", "all-garbage", "backend-400", "backend-404", "backend-429", "backend-500", "backend-503", "backend-500-nonjson", "malformed-200-json", "empty-200", "200-empty-object", "200-no-choices", "200-choice-without-message", "200-error-member-only"}
 var routes = []string{"proxy", "provider", "passthrough", "translated"}
 
 func TestC05(t *testing.T) {
@@ -157,6 +157,12 @@ func oneCase(run *rep.Run, w *world.World, hc *http.Client, bA, bB *backend.Std,
 		target.SetProxy(func(*backend.Record) *backend.Resp {
 			return &backend.Resp{Status: 200, Body: []byte(`{"id":"x","choices":[{"message":{"content":"trunc`), Headers: [][2]string{{"Content-Type", "application/json"}}}
 		})
+	case strings.HasPrefix(c.Mode, "200-"):
+		b := map[string]string{"200-empty-object": `{}`, "200-no-choices": `{"id":"x","object":"chat.completion","choices":[]}`,
+			"200-choice-without-message": `{"id":"x","choices":[{"index":0,"finish_reason":"stop"}]}`, "200-error-member-only": `{"error":{"message":"quota exceeded","type":"insufficient_quota"}}`}[c.Mode]
+		target.SetProxy(func(*backend.Record) *backend.Resp {
+			return &backend.Resp{Status: 200, Body: []byte(b), Headers: [][2]string{{"Content-Type", "application/json"}}}
+		})
 	case c.Mode == "empty-200":
 		target.SetProxy(func(*backend.Record) *backend.Resp {
 			return &backend.Resp{Status: 200, Body: []byte{}, Headers: [][2]string{{"Content-Type", "application/json"}}}
@@ -191,7 +197,7 @@ func oneCase(run *rep.Run, w *world.World, hc *http.Client, bA, bB *backend.Std,
 	// malformed / empty 200 bodies on untranslated routes are relayed as the backend sent them
 	// ... and on the translated *streaming* path malformed chunks are skipped by design (C13),
 	// so a 200 whose stream carries nothing usable is translated into an empty message
-	if (c.Mode == "malformed-200-json" || c.Mode == "empty-200") && (c.Route != "translated" || c.Stream) {
+	if (c.Mode == "malformed-200-json" || c.Mode == "empty-200" || strings.HasPrefix(c.Mode, "200-")) && (c.Route != "translated" || c.Stream) {
 		run.Count("relayed_as_is", 1)
 		return
 	}
